@@ -18,6 +18,7 @@ import (
 	"fmt"
 	"io"
 	"mime"
+	"os"
 	"sort"
 	"strings"
 	. "vh/kit"
@@ -34,7 +35,21 @@ import (
 	ocispec "github.com/opencontainers/image-spec/specs-go/v1"
 )
 
-func main() { Main("c01", runC01) }
+func main() {
+	if spec := os.Getenv(concEnv); spec != "" {
+		concChild(spec) // the re-executed child of the concurrency family
+		return
+	}
+	Main("c01", runC01)
+}
+
+func blobDoc(level string, ov map[trustpolicy.ValidationType]trustpolicy.ValidationAction, stores, ids []string) *trustpolicy.BlobDocument {
+	return &trustpolicy.BlobDocument{Version: "1.0", TrustPolicies: []trustpolicy.BlobTrustPolicy{{
+		Name:                  blobPolicyName,
+		SignatureVerification: trustpolicy.SignatureVerification{VerificationLevel: level, Override: ov},
+		TrustStores:           stores, TrustedIdentities: ids,
+	}}}
+}
 
 // ---- configuration of the verifier (everything the "rest" depends on) ----
 
@@ -178,6 +193,11 @@ type preObs struct {
 	out     *notation.VerificationOutcome
 	err     error
 	touched bool
+	// notation.VerifyBlob only: returned descriptor, and what the verifier inside returned
+	d         ocispec.Descriptor
+	recCalled bool
+	recOut    *notation.VerificationOutcome
+	recErr    error
 }
 
 func copyMap(m map[string]string) map[string]string {
@@ -255,6 +275,8 @@ type kase struct {
 }
 
 type runner struct {
+	// sink, when set, receives the finished cases instead of the case writer (child process of the concurrency family)
+	sink    func(id int64, term string, k *kase, key string, nontrivial bool)
 	w       *world
 	cw      *CaseWriter
 	rng     *Rng
@@ -676,7 +698,11 @@ func (r *runner) exec(k *kase, sh *shared) {
 			}
 			errTerm = classify(err, out)
 		case "blob":
-			out, err = v.VerifyBlob(ctx, genFunc(*k.Gen), e.bytes, notation.BlobVerifierVerifyOptions{SignatureMediaType: e.Format, UserMetadata: passMd, PluginConfig: pcfg, TrustPolicyName: blobPolicyName})
+			if k.pre != nil {
+				out, err = k.pre.out, k.pre.err
+			} else {
+				out, err = v.VerifyBlob(ctx, genFunc(*k.Gen), e.bytes, notation.BlobVerifierVerifyOptions{SignatureMediaType: e.Format, UserMetadata: passMd, PluginConfig: pcfg, TrustPolicyName: blobPolicyName})
+			}
 			errTerm = classify(err, out)
 		case "top":
 			b := k.Blob
@@ -694,9 +720,14 @@ func (r *runner) exec(k *kase, sh *shared) {
 			}
 			rec := &recVerifier{v: v}
 			var d ocispec.Descriptor
-			d, out, err = notation.VerifyBlob(ctx, rec, rd, sig, notation.VerifyBlobOptions{
-				BlobVerifierVerifyOptions: notation.BlobVerifierVerifyOptions{SignatureMediaType: smt, UserMetadata: passMd, PluginConfig: pcfg, TrustPolicyName: blobPolicyName},
-				ContentMediaType:          b.MT})
+			if k.pre != nil {
+				d, out, err = k.pre.d, k.pre.out, k.pre.err
+				rec.called, rec.out, rec.err = k.pre.recCalled, k.pre.recOut, k.pre.recErr
+			} else {
+				d, out, err = notation.VerifyBlob(ctx, rec, rd, sig, notation.VerifyBlobOptions{
+					BlobVerifierVerifyOptions: notation.BlobVerifierVerifyOptions{SignatureMediaType: smt, UserMetadata: passMd, PluginConfig: pcfg, TrustPolicyName: blobPolicyName},
+					ContentMediaType:          b.MT})
+			}
 			switch {
 			case err == nil:
 				errTerm = "ENone"
@@ -768,6 +799,10 @@ func (r *runner) exec(k *kase, sh *shared) {
 	nontrivial := levelValid && k.Cfg.Level != "skip" &&
 		((f.intact() && (presentedDiffers || len(k.Md) > 0)) || (!f.intact() && f.Content))
 	key := fmt.Sprintf("%s|%s|%s|%s|%v|%s|%s", e.Desc, e.Format, k.Kind, k.Cfg.key(), k.Md, call, f.coq())
+	if r.sink != nil {
+		r.sink(my, term, k, key, nontrivial)
+		return
+	}
 	r.cw.Add(my, term, k, key, nontrivial)
 	r.cw.Count("family", k.Family)
 	r.cw.Count("kind", k.Kind)
@@ -1746,6 +1781,9 @@ func runC01(a *Args) error {
 				top(BL0, "content-truncated", content[:10], "", nil), top(BL0, "equal", content, "", nil)})
 		}
 	}
+	// ---- family 11: concurrent use of ONE verifier (child process) ----
+	runConcurrency(a, r)
+
 	cw.Set("skipped_no_control_run", r.skipped)
 	cw.Set("envelopes", envCounter)
 	return cw.Close()
